@@ -461,7 +461,7 @@ func chunkUploader(ctx context.Context,
 	return func() error {
 		return backoff.Retry(func() error {
 			indexFile := model.ReverseIndexFile(chunkIndex)
-			dbReader := newDBReader(ctx, db, indexTime, logger, chunkSize)
+			dbReader := newDBReader(ctx, db, indexTime, logger, chunkSize, chunkIndex)
 			defer func() {
 				_ = dbReader.Close()
 			}()
@@ -1048,15 +1048,19 @@ type dbReader struct {
 	logger    *zap.Logger
 	partial   []byte
 	maxKeys   uint64
+	mark      []byte
 }
 
-func newDBReader(ctx context.Context, db kvStore, indexTime time.Time, logger *zap.Logger, maxKeys uint64) *dbReader {
+func newDBReader(ctx context.Context, db kvStore, indexTime time.Time, logger *zap.Logger, maxKeys uint64, chunkIndex uint64) *dbReader {
 	r := &dbReader{
 		db:        db,
 		indexTime: indexTime,
 		out:       make(chan []byte, 1024),
 		logger:    logger,
 		maxKeys:   maxKeys,
+		// keys handed to a chunk are marked with that chunk: if the write of the chunk fails and is retried,
+		// they are handed to it again (a key is only safely in the index once its chunk is stored)
+		mark: []byte(fmt.Sprintf("X%d", chunkIndex)),
 	}
 
 	g, gctx := errgroup.WithContext(ctx)
@@ -1090,7 +1094,7 @@ func (r *dbReader) iterateKV(ctx context.Context, db kvStore) func() error {
 				return fmt.Errorf("failed to fetch KV value [%s]: %w", key, err)
 			}
 
-			if len(val) > 0 {
+			if len(val) > 0 && !bytes.Equal(val, r.mark) {
 				// key has been marked as already uploaded: skip
 				skipped++
 
@@ -1152,7 +1156,7 @@ func (r *dbReader) Read(p []byte) (int, error) {
 			b = append(b, '\n') // add newline to separate keys
 
 			// mark key as read in the DB
-			if err := r.db.Set(key, []byte("X")); err != nil {
+			if err := r.db.Set(key, r.mark); err != nil {
 				return 0, fmt.Errorf("failed to mark KV key as read: %w", err)
 			}
 
